@@ -1,13 +1,18 @@
-/* PCRE is outside the subject: compile yields a fresh block or NULL, exec an arbitrary result. */
+/* PCRE is outside the subject: compile yields a fresh block (recording its options) or NULL, exec an arbitrary result. */
 #include <stdlib.h>
 #include "common.h"
 
 void *
 pcre_compile(const char *pattern, int options, const char **errptr, int *erroffset, const unsigned char *tableptr)
 {
-    (void) pattern; (void) options; (void) tableptr;
+    (void) tableptr;
     if (V_BOOL()) {
-        return malloc(8);
+        /* the "compiled pattern" records what it was compiled from: the options and the first pattern byte */
+        int *blk = (int *) malloc(8);
+
+        blk[0] = options;
+        blk[1] = pattern ? (int) (unsigned char) pattern[0] : -1;
+        return blk;
     }
     if (errptr) {
         *errptr = "stub";
